@@ -746,6 +746,27 @@ pub fn gen_history(rng: &mut Rng, sc: &mut Scenario) {
             sc.ops = ops;
             return;
         }
+        2 if rng.chance(1, 40) => {
+            // one batch with more items than a 16-bit counter holds
+            let ctor = gen_ctor(rng);
+            let n = 65_536 + rng.range(0, 40);
+            let items: Vec<Payload> = (0..n).map(|i| Payload::U8(i as u8)).collect();
+            let mut ops = vec![if rng.chance(1, 2) {
+                BOp::Batch(items)
+            } else {
+                BOp::BatchLazy(items, rng.below(4) as u8)
+            }];
+            if rng.chance(1, 2) {
+                ops.insert(0, BOp::SetLength(Some(rng.below(65536) as u16)));
+            }
+            if rng.chance(1, 2) {
+                ops.push(BOp::Write(gen_payload(rng, false)));
+            }
+            sc.sub = "history_huge_batch".into();
+            sc.ctor = Some(ctor);
+            sc.ops = ops;
+            return;
+        }
         _ => {}
     }
     let ctor = gen_ctor(rng);
@@ -814,7 +835,12 @@ pub fn gen_history(rng: &mut Rng, sc: &mut Scenario) {
                     BOp::Batch(ps)
                 }
             }
-            _ => BOp::WriteTlv(rng.byte(), gen_fill(rng, big)),
+            _ => {
+                let f = gen_fill(rng, big);
+                // (fills with seed % 16 == 4 are themselves an encoded TLV of type 0x04)
+                let k = if f.seed % 16 == 4 { 0x04 } else { rng.byte() };
+                BOp::WriteTlv(k, f)
+            }
         };
         ops.push(op);
     }
